@@ -1,22 +1,21 @@
 """C10: extra steps of the check (see lib/props_C10.py, DESIGN §8 C10).
 
-pre   hook_probe   if /repo/ctree carries the `ctree.add.upgrade` schedule point
-                   (proposed_hooks/ctree_upgrade.diff) the harness is built with the extra tag
-                   `ctreehook` and `cc win/win2` drive real goroutines through the hook;
-                   otherwise the window is forced from outside (read lock held by the harness).
+pre   hook_probe   the `ctree.add.upgrade` schedule point (build tag verif) must be present in
+                   /repo/ctree: `cc win/win2/windh` park real goroutines at it (a fact: its removal
+                   breaks the tie; the harness does not build without it).
 pre   lock_facts   regenerated facts about the lock operations of every ctree method the LTS
-                   transitions stand for (normalised source text, compared with expectations).
-extra race_stress  `-race` build of the harness; free-running stress (a) without handle updates
-                   concurrent with deletes: must be race free and all monitors `ok`;
-                   (b) with them: the known access pair of defect D15 is reported as
-                   KNOWN-FINDING when listed in KNOWN_FINDINGS.txt, anything else is a violation.
+                   transitions stand for (normalised source text, compared with expectations),
+                   incl. the re-check of slowAdd and "internalDelete reads every non-root node
+                   under that node's read lock" (the repair of D15: theorem C10.race_free).
+extra race_stress  `-race` build of the harness; free-running stress (a) without and (b) with
+                   handle updates concurrent with deletes: all monitors `ok` and NO race report
+                   of any kind.
 """
 import os, re, subprocess
 
 import vcheck
 
 HOOK_CALL = 'verifPoint("ctree.add.upgrade")'
-D15_CASE = "race:ctree.Leaf.Update/ctree.Tree.internalDelete"
 
 
 def _tree_go():
@@ -38,32 +37,13 @@ def hook_present():
 def hook_probe(ctx, cfg):
     present = hook_present()
     ctx.cov.setdefault("c10", {})["upgrade_hook_present"] = present
+    ctx.obligations.append(("fact ctree.add.upgrade.hook", present,
+                            "schedule point between RUnlock and Lock of intermediateAdd (upgRelease -> upgAcquire): "
+                            "the forced-window schedules of go/vcorr/cc.go park goroutines there"))
     if not present:
-        vcheck.log("  hook ctree.add.upgrade: absent (window forced from outside with a held read lock)")
-        return
-    ov = vcheck.overlay_file(ctx.scratch)
-    out = os.path.join(ctx.scratch, "vcorr")
-    r = subprocess.run(["go", "build", "-overlay", ov, "-tags", "verif,ctreehook", "-o", out, "./zz_verif/cmd/vcorr"],
-                       cwd=vcheck.REPO, env=vcheck.GOENV, capture_output=True, text=True)
-    if r.returncode != 0:
-        ctx.problems.append(("build", "harness build (with ctree hook) failed:\n" + (r.stdout + r.stderr)[-3000:], None))
-        return
-    ctx.bins["vcorr"] = out
-    vcheck.log("  hook ctree.add.upgrade: present (real goroutines are parked at the schedule point)")
-    # regression cases that need the hook (kept apart from corpus/C10/*.ops, which must run without it)
-    import glob
-    n = 0
-    for f in sorted(glob.glob(os.path.join(vcheck.VERIF, "corpus", ctx.prop, "hook", "*.ops"))):
-        with open(f) as fh:
-            lines = [l for l in fh.read().split("\n") if l and not l.startswith("#")]
-        idx, im, mo, sp = vcheck.eval_seq(ctx, out, lines)
-        n += len(lines)
-        if idx is not None:
-            payload = {"component": "corpus/hook/" + os.path.basename(f), "ops": lines, "impl": im[:len(lines)],
-                       "model": mo[:len(lines)], "spec": sp[:len(lines)], "first_divergence": idx}
-            ctx.problems.append(("divergence", "corpus case hook/%s diverges" % os.path.basename(f), payload))
-    ctx.cov["evaluations"] += n
-    ctx.cov["components"]["corpus-hook"] = {"evaluations": n}
+        ctx.problems.append(("fact", "the schedule point verifPoint(\"ctree.add.upgrade\") (ctree/tree.go, ctree/verif_on.go) "
+                             "is gone: the upgrade window can no longer be forced on the real code", None))
+    vcheck.log("  hook ctree.add.upgrade: %s" % ("present" if present else "ABSENT"))
 
 
 # ---------------------------------------------------------------- facts
@@ -148,19 +128,26 @@ def lock_facts(ctx, cfg):
         bad += 1
         ctx.problems.append(("fact", "fact ctree.slowAdd.recheck changed: the LTS (rc = true) assumes slowAdd inserts the new "
                              "branch only when b[path[0]] is still nil after the lock upgrade", None))
-    # which variant of the race clause describes internalDelete
-    idel = _lock_ops(_func_body(src, r"func \(t \*Tree\) internalDelete\("))
-    ctx.cov.setdefault("c10", {})["internalDelete_locks"] = idel
-    vcheck.log("  facts: %d lock-pattern facts checked against ctree/tree.go, %d changed" % (len(LOCK_FACTS) + 1, bad))
-
-
-def internal_delete_locks_nodes():
-    try:
-        src = re.sub(r"//[^\n]*", "", _tree_go())
-    except OSError:
-        return False
-    ops = _lock_ops(_func_body(src, r"func \(t \*Tree\) internalDelete\("))
-    return bool(ops) and "RLock" in " ".join(ops)
+    # internalDelete: every non-root node is read under its own read lock (repair of D15)
+    ibody = _func_body(src, r"func \(t \*Tree\) internalDelete\(") or ""
+    inorm = re.sub(r"\s+", " ", ibody)
+    want = "var lb interface{} if root { lb = t.leafBranch } else { t.mu.RLock() lb = t.leafBranch t.mu.RUnlock() }"
+    rec_calls = re.findall(r"\.internalDelete\(([^()]*(?:\([^()]*\)[^()]*)*)\)", ibody)
+    top_calls = []
+    for hdr in (r"func \(t \*Tree\) DeleteConditional\(", r"func \(t \*Tree\) WalkDeleted\("):
+        top_calls += re.findall(r"t\.internalDelete\((.*)\)", _func_body(src, hdr) or "")
+    ok = (want in inorm and inorm.count("t.leafBranch") == 2 and _lock_ops(ibody) == ["RLock", "RUnlock"]
+          and len(rec_calls) == 2 and all(c.strip().endswith(", false") for c in rec_calls)
+          and len(top_calls) == 2 and all(c.strip().endswith(", true") for c in top_calls))
+    ctx.obligations.append(("fact ctree.internalDelete.node_lock", ok,
+                            "delReadLocks true: the delete step reads node x under [root W, x R] (theorem C10.race_free)"))
+    if not ok:
+        bad += 1
+        ctx.problems.append(("fact", "fact ctree.internalDelete.node_lock changed: the model (accesses true) assumes that "
+                             "internalDelete reads t.leafBranch of every non-root node between t.mu.RLock() and t.mu.RUnlock() "
+                             "(root flag true only in DeleteConditional/WalkDeleted); without it Leaf.Update through a retained "
+                             "handle races with deletes (C10.race_witness_prefix)", None))
+    vcheck.log("  facts: %d lock-pattern facts checked against ctree/tree.go, %d changed" % (len(LOCK_FACTS) + 2, bad))
 
 
 # ---------------------------------------------------------------- -race stress
@@ -235,46 +222,28 @@ def race_stress(ctx, cfg):
         ctx.problems.append(("divergence", "race detector report on the stress without handle updates concurrent with "
                              "deletes: " + summary, payload))
 
-    # (b) handle updates concurrent with deletes
+    # (b) handle updates concurrent with deletes (directed + random): also race free since the
+    # repair of D15; every report is a violation
     lines = ["cc new", "cc stress %d 4 %d d15" % (seeds[0], 40 if thorough else 12),
-             "cc stress %d 8 %d hd" % (seeds[0], rounds // 2)]
+             "cc stress %d 8 %d hd" % (seeds[0], rounds // 2), "cc stress %d 3 %d hd" % (seeds[1], rounds // 2)]
     obs, err = _run_stress(ctx, vrace, lines, 900)
     blocks = RACE_BLOCK.findall(err or "")
-    known = vcheck.known_findings(ctx.prop)
-    d15 = others = 0
-    d15_summary = ""
-    for b in blocks:
-        kind, summary = _classify(b)
-        if kind == "d15":
-            d15 += 1
-            d15_summary = summary
-            continue
-        others += 1
-        if others <= 3:
-            payload = {"component": "cc -race stress (hd)", "ops": lines, "impl": ["DATA RACE"], "model": ["ok"], "spec": ["ok"],
-                       "first_divergence": 0, "monitor_failed": True, "race_report": b[:4000], "access_pair": summary}
-            ctx.problems.append(("divergence", "race detector report other than the known pair: " + summary, payload))
     okb = obs is not None and all(o == "ok" for o in obs)
     if not okb:
         bad = next((i for i, o in enumerate(obs or []) if o != "ok"), 0)
         payload = {"component": "cc -race stress (hd)", "ops": lines[:bad + 1], "impl": (obs or ["<timeout>"])[:bad + 1],
                    "model": ["ok"] * (bad + 1), "spec": ["ok"] * (bad + 1), "first_divergence": bad, "monitor_failed": True}
         ctx.problems.append(("divergence", "cc stress (handle updates concurrent with deletes): monitor failed", payload))
-    fixed = internal_delete_locks_nodes()
-    c10["race_stress_hd"] = {"lines": lines, "observations": obs, "d15_reports": d15, "other_reports": others,
-                             "internalDelete_takes_node_locks": fixed}
+    for b in blocks[:3]:
+        kind, summary = _classify(b)
+        what = ("data race between Leaf.Update through a retained handle and internalDelete (defect D15 is back: "
+                "C10.race_witness_prefix)" if kind == "d15" else
+                "race detector report on the stress with handle updates concurrent with deletes: " + summary)
+        payload = {"component": "cc -race stress (hd)", "ops": lines, "impl": ["DATA RACE"], "model": ["ok"], "spec": ["ok"],
+                   "first_divergence": 0, "monitor_failed": True, "race_report": b[:4000], "access_pair": summary}
+        ctx.problems.append(("divergence", what, payload))
+    c10["race_stress_hd"] = {"lines": lines, "observations": obs, "race_reports": len(blocks)}
     ctx.cov["evaluations"] += len(lines)
-    if d15:
-        kf = known.get(D15_CASE)
-        if kf and not fixed:
-            ctx.known.append("KNOWN-FINDING: property=%s %s [%d race reports: %s]" % (ctx.prop, kf["text"], d15, d15_summary))
-        else:
-            b = next(b for b in blocks if _classify(b)[0] == "d15")
-            payload = {"component": "cc -race stress (hd)", "ops": lines, "impl": ["DATA RACE"], "model": ["ok"], "spec": ["ok"],
-                       "first_divergence": 0, "monitor_failed": True, "race_report": b[:4000], "access_pair": d15_summary}
-            ctx.problems.append(("divergence", "data race between Leaf.Update through a retained handle and internalDelete "
-                                 "(theorem C10.race_witness)", payload))
-    ctx.obligations.append(("-race stress with handle updates concurrent with deletes: only the D15 access pair is reported",
-                            others == 0 and okb, "%d D15 reports, %d other reports" % (d15, others)))
-    vcheck.log("  -race stress: nohd %s; hd: %d reports of the D15 pair, %d other" %
-               ("clean" if c10["race_stress_nohd"]["race_reports"] == 0 and ok else "NOT clean (see evidence)", d15, others))
+    ctx.obligations.append(("-race stress with handle updates concurrent with deletes: monitors ok, no race report",
+                            okb and not blocks, "%d race reports; observations %r" % (len(blocks), obs)))
+    vcheck.log("  -race stress: nohd %d race reports, hd %d race reports" % (c10["race_stress_nohd"]["race_reports"], len(blocks)))
